@@ -127,8 +127,9 @@ def judge_multi(case, rc, out):
 
 def limited_cases(rnd, sd_all, quick, blksize):
     """(archive, limit, tag): members of 300 000 bytes and more extracted with RLIMIT_FSIZE = limit (SIGXFSZ ignored, so
-    the write fails with EFBIG).  Every limit is at least two stdio buffers short of the member's length: the failing
-    write is then one the library makes itself, not the final flush inside fclose."""
+    the write fails with EFBIG).  Limits far short of the member's length make a write of the library's own loop fail;
+    limits within the last stdio buffer (and small members that fit one buffer) make only the final flush inside fclose
+    fail -- the defect repaired by 35c0724 (extract_file ignored fclose's result)."""
     res = []
     n = 300000
     data = bytes(rnd.randrange(256) for _ in range(n))
@@ -144,6 +145,13 @@ def limited_cases(rnd, sd_all, quick, blksize):
         for lim in ([0, 4096, 10000, 100000] if quick else [0, 1, 4095, 4096, 4097, 10000, 65536, 100000, 200000]):
             if ln - lim > 2 * max(blksize, 4096) + 70000:
                 res.append((mk_archive(meth, d, ln, crc, level=rnd.choice([0, 1, 2])), lim, "limit:%s:%d" % (meth.decode(), lim)))
+        # the failing write is the final flush
+        for lim in ([ln - 1, ln - 100] if quick else [ln - 1, ln - 2, ln - 100, ln - 4095, ln - 4096, ln - blksize + 1]):
+            if 0 <= lim < ln:
+                res.append((mk_archive(meth, d, ln, crc, level=rnd.choice([0, 1, 2])), lim, "limit-flush:%s:%d" % (meth.decode(), lim)))
+    for n2, lim in ((3000, 1000), (3000, 0), (1, 0), (4096, 4095), (5000, 4096)) + (() if quick else ((100, 99), (8192, 8191), (70000, 69999))):
+        d2 = bytes(rnd.randrange(256) for _ in range(n2))
+        res.append((mk_archive(b"-lh0-", d2, n2, crc16(d2), level=rnd.choice([0, 1, 2])), lim, "limit-flush:small:%d:%d" % (n2, lim)))
     return res
 
 
